@@ -268,9 +268,22 @@ func c13list(xs []int64) string {
 }
 
 // end of a case: stop the goroutines that are still waiting and wait until they are gone
+var c13leaks = 0
+
 func (r *c13run) finish() (left int) {
 	r.cancel()
-	for i := 0; i < 200000; i++ {
+	// goroutines that ignore the cancellation (only under a defect) are waited for a few times only
+	wait := 50 * time.Millisecond
+	if c13leaks > 20 {
+		wait = 0
+	}
+	defer func() {
+		if left != 0 {
+			c13leaks++
+		}
+	}()
+	deadline := time.Now().Add(wait)
+	for i := 0; ; i++ {
 		_, n, _ := c13goroutines()
 		if n == 0 {
 			return 0
@@ -285,9 +298,11 @@ func (r *c13run) finish() (left int) {
 			default:
 			}
 		}
+		if i > 100 && time.Now().After(deadline) {
+			return
+		}
 		runtime.Gosched()
 	}
-	return
 }
 
 func c13case(out *rec.Out, d c13def, ops []c13op, stats map[string]int) {
@@ -563,7 +578,20 @@ func c13(out *rec.Out, rng *rec.Rng, tier string, stats map[string]int) {
 // goroutine of the Go process can run and records what the catch event did: became listening,
 // observed a timer event, continued (a flow left it), the end event completed.
 
-func init() { families["c13e"] = c13e }
+// one process per case: a cancelled instance can leave a spinning tracer behind, and the quiescence
+// rule used here looks at every goroutine of the process
+func init() {
+	caseFamilies["c13e"] = &caseFamily{
+		Count: func(tier string) int { return len(c13ejobs(tier)) },
+		Run: func(out *rec.Out, idx int, rng *rec.Rng, tier string, stats map[string]int) {
+			runtime.GOMAXPROCS(2)
+			j := c13ejobs(tier)[idx]
+			c13ecase(out, j.d, j.ops, stats)
+		},
+		Shard: 1,
+		Par:   12,
+	}
+}
 
 const c13procXML = `<?xml version="1.0" encoding="UTF-8"?>
 <bpmn:definitions xmlns:bpmn="http://www.omg.org/spec/BPMN/20100524/MODEL" xmlns:xsi="http://www.w3.org/2001/XMLSchema-instance" id="defs" targetNamespace="http://bpmn.io/schema/bpmn">
@@ -708,19 +736,18 @@ func c13ecase(out *rec.Out, d c13def, ops []c13op, stats map[string]int) {
 		}
 		emit(o.kind, o.arg)
 	}
-	cancel()
-	// let the engine's goroutines finish so that they do not pile up across cases
-	for i := 0; i < 100000 && !c13allParked(); i++ {
-		runtime.Gosched()
-	}
-	tracer.Unsubscribe(traces)
 	stats["cases"]++
 	stats["kind_"+d.kind]++
 	stats[fmt.Sprintf("continued_%d", conts)]++
 }
 
-func c13e(out *rec.Out, rng *rec.Rng, tier string, stats map[string]int) {
-	defer runtime.GOMAXPROCS(runtime.GOMAXPROCS(1))
+type c13ejob struct {
+	d   c13def
+	ops []c13op
+}
+
+// the engine-level cases of a tier, in a fixed order (case idx depends only on the tier)
+func c13ejobs(tier string) []c13ejob {
 	N := c13NoTime
 	// due times ahead of the clock only: a timer is created with the process, i.e. before the
 	// catch event starts listening; a firing the event was not yet listening for is ignored
@@ -734,25 +761,26 @@ func c13e(out *rec.Out, rng *rec.Rng, tier string, stats map[string]int) {
 			c13def{via: "new", kind: "cycle", reps: reps, start: 20, interval: 10, end: N},
 			c13def{via: "new", kind: "cycle", reps: reps, start: N, interval: 10, end: 25})
 	}
-	maxLen := 2
-	stride := 1
-	if tier == "thorough" {
-		maxLen = 4
+	if os.Getenv("C13E_PAST") != "" {
+		// experiment (not part of the check): due time already reached when the process is created
+		defs = []c13def{{via: "new", kind: "date", start: -5, end: N}, {via: "new", kind: "duration", interval: 0, start: N, end: N},
+			{via: "new", kind: "cycle", reps: 2, start: -15, interval: 10, end: N}}
 	}
+	maxLen := 2
+	if tier == "thorough" {
+		maxLen = 3
+	}
+	var jobs []c13ejob
 	for _, d := range defs {
 		grid := c13grid(d)
 		var seq []int64
-		n := 0
 		var recur func(from int)
 		recur = func(from int) {
-			n++
-			if n%stride == 0 {
-				ops := make([]c13op, len(seq))
-				for i, x := range seq {
-					ops[i] = c13op{"set", x}
-				}
-				c13ecase(out, d, ops, stats)
+			ops := make([]c13op, len(seq))
+			for i, x := range seq {
+				ops[i] = c13op{"set", x}
 			}
+			jobs = append(jobs, c13ejob{d, ops})
 			if len(seq) == maxLen {
 				return
 			}
@@ -764,5 +792,15 @@ func c13e(out *rec.Out, rng *rec.Rng, tier string, stats map[string]int) {
 		}
 		recur(0)
 	}
-	_ = rng
+	if tier != "thorough" {
+		// quick: every third case
+		var thin []c13ejob
+		for i, j := range jobs {
+			if i%3 == 0 {
+				thin = append(thin, j)
+			}
+		}
+		jobs = thin
+	}
+	return jobs
 }
